@@ -311,3 +311,88 @@ def float_random_ops(rng, fs, rads, n, lossy=False):
                 s += rng.choice(["x", " ", "e", ".", "_", "e+", "\xff"])
             ops.append(pf_op(ty, fmt, s.encode("latin-1"), r, partial=rng.choice([0, 1]), lossy=lossy))
     return ops
+
+
+# ---------------------------------------------------------------------------------------------
+# float writing (G-bits)
+
+def float_bits_cases(rng, ty, n_random, rich=True):
+    """bit patterns: every binade boundary, subnormals, powers of two +-1ulp, integers, endpoint family, random"""
+    p, eb = FLOAT_TYPES[ty]
+    mbits = p - 1
+    total = mbits + eb
+    out = set()
+    maxe = (1 << eb) - 1
+    for e in range(0, maxe):
+        base = e << mbits
+        for m in (0, 1, 2, (1 << mbits) - 1, (1 << mbits) - 2, 1 << (mbits - 1)):
+            out.add(base | m)
+        if rich:
+            out.add(base | rng.getrandbits(mbits))
+    # subnormal boundaries
+    for k in range(mbits):
+        out.add(1 << k)
+        out.add((1 << k) - 1 if k else 0)
+        out.add((1 << k) + 1)
+    # small integers and halves
+    import struct
+    def bits_of(x):
+        if ty == "f64":
+            return struct.unpack("<Q", struct.pack("<d", x))[0]
+        return struct.unpack("<I", struct.pack("<f", x))[0]
+    for i in range(0, 130):
+        out.add(bits_of(float(i)))
+        out.add(bits_of(i + 0.5))
+        out.add(bits_of(i / 10.0))
+    for k in range(0, 310 if ty == "f64" else 39):
+        for d in (1.0, 5.0, 9.0, 8.55, 1.5, 2.5, 9.5, 1.2345678901234567, 9.999999999999999):
+            try:
+                v = float("%re%d" % (d, k))
+                out.add(bits_of(v))
+                v = float("%re-%d" % (d, k))
+                out.add(bits_of(v))
+            except (OverflowError, struct.error):
+                pass
+    for _ in range(n_random):
+        out.add(rng.getrandbits(total - 1))
+        # random mantissa with few significant bits (short decimal outputs)
+        e = rng.randrange(1, maxe)
+        out.add((e << mbits) | (rng.getrandbits(rng.randint(1, 12)) << rng.randint(0, mbits - 12)))
+    # specials and signed zeros
+    sign = 1 << (total - 1)
+    inf = maxe << mbits
+    res = sorted(x for x in out if x < inf)
+    res += [inf, inf | 1, inf | (1 << (mbits - 1)), sign, sign | inf, sign | inf | (1 << (mbits - 1)), sign | 1, sign | bits_of(1.0)]
+    return res
+
+
+def midpoint_decimal_floats(ty, maxdigits=4):
+    """floats f for which some short decimal D*10^E is EXACTLY a rounding-interval endpoint of f
+    (the 8.55e21 family): D*10^E = (2m+1)*2^(e-1). Enumerates D up to maxdigits digits for E >= 0 where
+    D*10^E is an odd multiple of a power of two with exactly p+1 significant bits."""
+    p, eb = FLOAT_TYPES[ty]
+    out = set()
+    for E in range(0, 40 if ty == "f64" else 12):
+        for D in range(1, 10 ** maxdigits):
+            n = D * 10 ** E
+            tz = (n & -n).bit_length() - 1
+            odd = n >> tz
+            if odd.bit_length() == p + 1:
+                # endpoint between floats m=(odd-1)/2 and (odd+1)/2 at exponent tz+1
+                for mm in ((odd - 1) // 2, (odd + 1) // 2):
+                    e2 = tz + 1
+                    if mm.bit_length() > p:      # carried to next binade
+                        mm >>= 1
+                        e2 += 1
+                    if mm.bit_length() == p:
+                        biased = e2 + (p - 1) + (1 << (eb - 1)) - 1
+                        if 0 < biased < (1 << eb) - 1:
+                            out.add((biased << (p - 1)) | (mm - (1 << (p - 1))))
+    return sorted(out)
+
+
+def float_write_default_ops(rng, ty, bits_list):
+    ops = []
+    for b in bits_list:
+        ops.append("dwf %s %x -" % (ty, b))
+    return ops
